@@ -27,10 +27,10 @@ def run(ctx):
     import gen.ack_ranges as g
     if ctx.tier == "thorough" or ctx.escalated:
         ctx.exhaustive = True
-        sizes = {str(l): g.closure(l, list(range(9)))[1] for l in (1, 2, 3, 4)}
+        sizes = {str(l): g.closure(l, list(range(10)))[1] for l in (1, 2, 3, 4, 5)}
         ctx.extra["exhaustive_ackranges"] = {
             "what": "breadth-first closure of the state graph: every (reachable state, op) pair for ops = insert_packet_number_range/remove of "
-                    "every sub-interval of {0..8} + pop_min with limits 1..4 until no new state appears (complete state printed and checked "
+                    "every sub-interval of {0..9} + pop_min with limits 1..5 until no new state appears (complete state printed and checked "
                     "after every op, so every op sequence of any length over this alphabet is covered)",
             "reachable_states_per_limit": sizes}
     else:
